@@ -121,6 +121,12 @@ def detect(sid, tier="quick", props=None):
     rc, out = sh(["git", "-C", REPO, "apply", os.path.join(d, "patch.diff")])
     if rc != 0:
         raise SystemExit("patch does not apply: " + out)
+    # evidence/<p>.json is rewritten by every check run: keep the unchanged-tree evidence aside
+    saved = {}
+    for p in props:
+        ep = os.path.join(VERIF, "evidence", f"{p}.json")
+        if os.path.exists(ep):
+            saved[ep] = open(ep).read()
     try:
         for p in props:
             t0 = time.time()
@@ -147,6 +153,8 @@ def detect(sid, tier="quick", props=None):
     finally:
         sh(["git", "-C", REPO, "checkout", "--", "."])
         sh(["git", "-C", REPO, "clean", "-fdq"])
+        for ep, txt in saved.items():
+            open(ep, "w").write(txt)
     json.dump(mj, open(os.path.join(d, "meta.json"), "w"), indent=1)
     # restore evidence of the unchanged tree later (caller's job)
 
